@@ -38,6 +38,7 @@ const (
 	GetObjectAction                        Action = "s3:GetObject"
 	GetObjectVersionAction                 Action = "s3:GetObjectVersion"
 	DeleteObjectAction                     Action = "s3:DeleteObject"
+	DeleteObjectVersionAction              Action = "s3:DeleteObjectVersion"
 	GetObjectAclAction                     Action = "s3:GetObjectAcl"
 	GetObjectAttributesAction              Action = "s3:GetObjectAttributes"
 	PutObjectAclAction                     Action = "s3:PutObjectAcl"
@@ -80,6 +81,7 @@ var supportedActionList = map[Action]struct{}{
 	GetObjectAction:                        {},
 	GetObjectVersionAction:                 {},
 	DeleteObjectAction:                     {},
+	DeleteObjectVersionAction:              {},
 	GetObjectAclAction:                     {},
 	GetObjectAttributesAction:              {},
 	PutObjectAclAction:                     {},
@@ -111,6 +113,7 @@ var supportedObjectActionList = map[Action]struct{}{
 	GetObjectAction:                 {},
 	GetObjectVersionAction:          {},
 	DeleteObjectAction:              {},
+	DeleteObjectVersionAction:       {},
 	GetObjectAclAction:              {},
 	GetObjectAttributesAction:       {},
 	PutObjectAclAction:              {},
